@@ -4,6 +4,7 @@ mod common;
 use affinitree::linalg::affine::AffFunc;
 use affinitree::pwl::afftree::AffTree;
 use common::*;
+use affinitree::pwl::node::NodeState;
 use ndarray::{Array2, ShapeBuilder};
 use std::panic::AssertUnwindSafe;
 
@@ -96,6 +97,26 @@ fn one_case(r: &mut Rng, id: usize, out: &mut String) {
                 }
             }
         }
+    }
+    // reduce compares the FUNCTIONS of sibling terminals, whatever their cached feasibility states are: some trees went
+    // through an elimination first, some carry arbitrary states (different witnesses on equal siblings)
+    match r.below(6) {
+        0 => {
+            let _ = catch(AssertUnwindSafe(|| t.infeasible_elimination()));
+        }
+        1 | 2 => {
+            let idxs: Vec<usize> = t.tree.node_indices().collect();
+            for i in idxs {
+                let st = match r.below(4) {
+                    0 => NodeState::Feasible,
+                    1 => NodeState::FeasibleWitness(vec![gen_point(r, n)]),
+                    2 => NodeState::FeasibleWitness(vec![gen_point(r, n), gen_point(r, n)]),
+                    _ => NodeState::Indeterminate,
+                };
+                t.tree.node_value_mut(i).unwrap().state = st;
+            }
+        }
+        _ => {}
     }
     let before = sx_tree(&t);
     let mut h = t.clone();
